@@ -4,15 +4,19 @@ ENTRY = {
         "technique": "property-based testing (rapid), in-process HTTP driver: op-list histories of neuron-annotation writes; "
                      "(O1) three-way differential between the in-memory head, its committed parent and a fresh side branch (store path) over every read endpoint; "
                      "(O3) reference model of the documented field-merge and stamp rules (model/njson.go) checked by read-back after every write; "
-                     "query answers decided by the memory/store differential plus a partial model (equality, exists, anchored regex)",
+                     "query answers decided by the memory/store differential plus a partial model (equality, exists, anchored regex); "
+                     "in-process restart (datastore.CloseReopenTest) inside histories with a before/after differential over the same reads",
         "level_text": "Generated-input exploration with explicit oracles. Each case is a history of 4-20 operations (POST key plain/replace/conditional, "
                       "POST keyvalues, DELETE key, schema posts/deletes, commit+newversion on master and on a side branch) with JSON values chosen to stress "
-                      "the typed in-memory representation (ints above 2^53, integral floats, nested lists/objects, nulls, repeated identical values, explicit stamps). "
+                      "the typed in-memory representation (ints above 2^53, integral floats, nested lists/objects, nulls, repeated identical values, print-equal siblings such as 12 / \"12\" or [\"a b\"] / [\"a\",\"b\"] written by a different user, explicit stamps); "
+                      "body ids of a case always mix digit counts so that the store's string key order differs from the numeric order, and one case in six reopens the datastore "
+                      "mid-history and requires every read of the head to be identical before and after. "
                       "Every comparison point makes the same content readable through both implementations (H' = in-memory head, H and B = store) and compares "
                       "keys, values, field lists and counts, ranges, batch reads and 1-4 generated queries; committed versions are re-read later against their snapshot. "
                       "The state space (histories x values x queries) is unbounded, so this is search, not enumeration: absence of failures is not a proof. "
                       "Twelve signatures fail on the unchanged tree and are reported as findings; the generator steers around each listed one so the search continues behind it.",
-        "level_note": "Restart equivalence (O2) is covered by the child-process check. Orderings are only asserted where the help text promises one (query); "
+        "level_note": "The restart inside histories is the in-process close/reopen helper (package-level state survives; neuronjson has none); a real process restart (O2) is covered by the child-process check. "
+                      "The reopen re-initialises every instance in the test store, so its cost grows with the cases already run in the shard: per-shard counts are kept at or below 1000. Orderings are only asserted where the help text promises one (query); "
                       "*_time only as same/different plus 'differs from a caller-supplied past date'. Where the help text is silent (null on an absent field, "
                       "explicit stamps on an unchanged value, numeric coercion and list matching in queries, conditional+replace, null vs json_schema) nothing is asserted. "
                       "The upstream RFC3339 stamps have 1 s resolution, so 'time changed' cannot be observed between two server-stamped writes of one case.",
